@@ -97,7 +97,7 @@ Definition check_case (c : case) : N :=
                         else [] in
           judge (hmap_eqb hi hm) (clf hi) (clf hm)
                 (if cfg_sane cfg then map (fun k => veq (hfind hi k) (hfind hm k)) (clause_keys cfg) else []) true
-                (F_cih_xrealip_forged cfg hdr || F_capital_websocket hdr) (forged cfg hdr)
+                (F_cih_xrealip_forged cfg hdr) (forged cfg hdr)
       | Err _, Err _ => verdict true (match r_peer r with None => true | _ => false end) None false
       | Panic, Panic => v_model_spec_fails
       | Panic, _ => v_disagree_spec_fails
